@@ -27,7 +27,8 @@ theorem exact_transfer_count_partial (cfg : Cfg) (tbl : List Nat) (ops : List Op
     let m := LM.run toi (trace cfg tbl ops)
     m.stops ≤ burst a ∧
     (m.stops = burst a → isAdded (run (init cfg tbl) ops) toi = false) ∧
-    (m.removed = none → m.full = m.stops + (if m.active = true ∧ m.sent = npk a then 1 else 0)) := by
+    (m.removed = none → a.faults = [] →
+      m.full = m.stops + (if m.active = true ∧ m.sent = npk a then 1 else 0)) := by
   have hl := (life_run cfg tbl ops).2
   simp only []
   cases hf : getF (run (init cfg tbl) ops).objs toi with
@@ -50,8 +51,8 @@ theorem exact_transfer_count_partial (cfg : Cfg) (tbl : List Nat) (ops : List Op
       | true =>
         have := c3 (Or.inl (by simpa using hcont))
         omega
-    · intro hr
-      have := r.full (Or.inl hr)
+    · intro hr hfl
+      have := r.full (Or.inl hr) (by rw [← r.faults a ha]; exact hfl)
       rw [r.stops, ← r.active, ← npk_eq h2] at this
       exact this
 
@@ -126,7 +127,7 @@ theorem exact_transfer_count_liveness_step_partial (cfg : Cfg) (tbl : List Nat) 
     (ticks : List (Nat × Nat)) (hsorted : (cfg.queues.map (fun x => x.1)).Pairwise (fun a b => a < b))
     (toi : Nat) (f : FileDesc) (hadded : isAdded (run (init cfg tbl) ops) toi = true)
     (hf : getF (run (init cfg tbl) ops).objs toi = some f) (hcar : f.carousel = none)
-    (hnone : (read (run (init cfg tbl) ops) now ticks).2 = Out.none) :
+    (hnone : (read (run (init cfg tbl) ops) now ticks).2 = Out.none) (hnf : NoFaultOps ops) :
     (toi ∈ (run (init cfg tbl) ops).queue ∧
       (((run (init cfg tbl) ops).cfg.mode = .full ∧ f.published = false) ∨
        (∃ st, f.info.startTime = some st ∧ now < st) ∨
@@ -145,7 +146,8 @@ theorem exact_transfer_count_liveness_step_partial (cfg : Cfg) (tbl : List Nat) 
     · exact Or.inl hp
     · by_cases hs : ∃ st, f.info.startTime = some st ∧ now < st
       · exact Or.inr (Or.inl hs)
-      · refine Or.inr (Or.inr (idle_waiting cfg tbl ops now ticks hsorted hnone toi f hq hf (Or.inr (by unfold gapElapsed; rw [hcar])) ?_ ?_))
+      · refine Or.inr (Or.inr (idle_waiting cfg tbl ops now ticks hsorted hnone toi f hq hf (Or.inr (by unfold gapElapsed; rw [hcar])) ?_ ?_
+          (faultfree_run cfg tbl ops hnf)))
         · intro hm
           cases hpb : f.published with
           | true => rfl
@@ -159,12 +161,14 @@ theorem exact_transfer_count_liveness_step_partial (cfg : Cfg) (tbl : List Nat) 
     have hk' : pc.2.key = toi := by rw [hk]; exact getF_key hf
     exact ⟨pc, hpc, hk', idle_held cfg tbl ops now ticks hnone pc hpc f (by rw [hk']; exact hf)⟩
 
-/-- Every StartTransfer has its StopTransfer (oracle class `C12:start-without-stop` as a theorem, for the model's
-    buffer sources): after every operation history the StartTransfer and StopTransfer events of an object alternate,
-    beginning with a Start - the number of Starts equals the number of Stops, plus one exactly when the object is in
-    transfer (`is_transferring`: a slot holds its encoder) in the final state.
-    The transfer-START FAILURE path of stream sources (`BlockEncoder::new` fails -> `release_file`) is not in the
-    model: there the pairing is checked by the engine alone (family `streamfault-*`, seeded change C12-3). -/
+/-- Every StartTransfer has its StopTransfer (oracle class `C12:start-without-stop` as a theorem) - for buffer sources
+    AND for stream sources whose transfer attempts fail to start (`AddArgs.faults`: the rewind fails ->
+    `BlockEncoder::new` fails -> `get_next` releases the file at once; or the first read fails -> the encoder yields
+    nothing, the file is released and the call gives the hand back, /repo a00f689): after every operation history the
+    StartTransfer and StopTransfer events of an object alternate, beginning with a Start - #Starts = #Stops, plus one
+    exactly when the object is in transfer (`is_transferring`) in the final state.  The lifecycle monitor accepts a
+    Stop without packets only for an attempt that the fault schedule of the source marks as failing
+    (`LM.check`, third alternative); `streamfault`/`faultmodel-*` cases are compared with this model. -/
 theorem every_start_has_stop (cfg : Cfg) (tbl : List Nat) (ops : List Op) (toi : Nat) :
     (LM.run toi (trace cfg tbl ops)).starts =
       (LM.run toi (trace cfg tbl ops)).stops + (if isTransferring (run (init cfg tbl) ops) toi = true then 1 else 0) := by
@@ -239,7 +243,7 @@ theorem carousel_liveness_step_partial (cfg : Cfg) (tbl : List Nat) (ops : List 
     (ticks : List (Nat × Nat)) (hsorted : (cfg.queues.map (fun x => x.1)).Pairwise (fun a b => a < b))
     (toi : Nat) (f : FileDesc) (hadded : isAdded (run (init cfg tbl) ops) toi = true)
     (hf : getF (run (init cfg tbl) ops).objs toi = some f)
-    (hnone : (read (run (init cfg tbl) ops) now ticks).2 = Out.none) :
+    (hnone : (read (run (init cfg tbl) ops) now ticks).2 = Out.none) (hnf : NoFaultOps ops) :
     (toi ∈ (run (init cfg tbl) ops).queue ∧
       (((run (init cfg tbl) ops).cfg.mode = .full ∧ f.published = false) ∨
        (∃ st, f.info.startTime = some st ∧ now < st) ∨
@@ -261,7 +265,8 @@ theorem carousel_liveness_step_partial (cfg : Cfg) (tbl : List Nat) (ops : List 
       · exact Or.inr (Or.inl hs)
       · by_cases hgap : f.maxCount ≤ f.info.count ∧ gapElapsed f now = false
         · exact Or.inr (Or.inr (Or.inl hgap))
-        · refine Or.inr (Or.inr (Or.inr (idle_waiting cfg tbl ops now ticks hsorted hnone toi f hq hf ?_ ?_ ?_)))
+        · refine Or.inr (Or.inr (Or.inr (idle_waiting cfg tbl ops now ticks hsorted hnone toi f hq hf ?_ ?_ ?_
+            (faultfree_run cfg tbl ops hnf))))
           · rcases Nat.lt_or_ge f.info.count f.maxCount with h | h
             · exact Or.inl h
             · right
@@ -288,7 +293,8 @@ theorem nb_transfers_eq_wire (cfg : Cfg) (tbl : List Nat) (ops : List Op) (toi n
     (h : nbTransfers (run (init cfg tbl) ops) toi = some n) :
     let m := LM.run toi (trace cfg tbl ops)
     n = m.stops ∧ m.removed = none ∧
-    ∃ a, m.args = some a ∧ m.full = m.stops + (if m.active = true ∧ m.sent = npk a then 1 else 0) := by
+    ∃ a, m.args = some a ∧
+      (a.faults = [] → m.full = m.stops + (if m.active = true ∧ m.sent = npk a then 1 else 0)) := by
   have hl := (life_run cfg tbl ops).2
   simp only []
   unfold nbTransfers at h
@@ -305,7 +311,8 @@ theorem nb_transfers_eq_wire (cfg : Cfg) (tbl : List Nat) (ops : List Op) (toi n
       obtain ⟨a, h1, h2, _, _, _⟩ := r.args
       have hr := (r.inFiles hin).1
       refine ⟨by rw [r.stops]; exact h.symm, hr, a, h1, ?_⟩
-      have := r.full (Or.inl hr)
+      intro hfl
+      have := r.full (Or.inl hr) (by rw [← r.faults a h1]; exact hfl)
       rw [← r.active, ← npk_eq h2] at this
       exact this
   · cases h
@@ -319,7 +326,9 @@ theorem remove_semantics (cfg : Cfg) (tbl : List Nat) (ops : List Op) (toi : Nat
     (hr : (LM.run toi pre).removed = some (wa, st)) :
     (∀ now s' tk, e ≠ Ev.start now toi s' tk) ∧
     (∀ now p idx b, e = Ev.pkt now p toi idx b → wa = true ∧ (st = true → (LM.run toi pre).after = 0 ∧ b = true)) ∧
-    (∀ now, e = Ev.stop now toi → st = false → ∃ a, (LM.run toi pre).args = some a ∧ (LM.run toi pre).sent = npk a) := by
+    (∀ now, e = Ev.stop now toi → st = false → ∃ a, (LM.run toi pre).args = some a ∧
+      ((LM.run toi pre).sent = npk a ∨
+       ((LM.run toi pre).sent = 0 ∧ (a.faults[(LM.run toi pre).stops]?).isSome = true))) := by
   have hc := checked_at post e pre (hs ▸ lifecycle_checked cfg tbl ops toi)
   refine ⟨?_, ?_, ?_⟩
   · intro now s' tk he
@@ -333,9 +342,10 @@ theorem remove_semantics (cfg : Cfg) (tbl : List Nat) (ops : List Op) (toi : Nat
     subst he
     obtain ⟨_, a, h1, h2⟩ := hc rfl
     refine ⟨a, h1, ?_⟩
-    rcases h2 with h2 | h2
-    · exact h2
+    rcases h2 with h2 | h2 | h2
+    · exact Or.inl h2
     · rw [hr] at h2; simp only [Option.some.injEq, Prod.mk.injEq] at h2; rw [hst] at h2; cases h2.2
+    · exact Or.inr h2
 
 /-- Once no object remains (`nb_objects = 0` and no slot holds a transfer - a removed object may still be
     finishing one) `read` returns nothing or FDT packets only, and the sender stays in that condition. -/
@@ -501,7 +511,8 @@ example : ∃ f, Unpaced (run (init cfg1 [1]) [.add obj3, .publish 5]) 1 5 f ∧
     refine ⟨_, rfl, ?_, ?_, ?_, ?_⟩ <;> decide
   obtain ⟨f, h1, h2, h3, h4, h5⟩ := hobj
   have hall : ∀ g ∈ (run (init cfg1 [1]) [.add obj3, .publish 5]).objs, wantsTick g = false := by decide
-  exact ⟨f, Unpaced.mk h1 h2 (fun _ => h3) (fun st h => by rw [h4] at h; cases h) (fun k g h => hall g (getF_mem h)),
+  exact ⟨f, Unpaced.mk h1 h2 (fun _ => h3) (fun st h => by rw [h4] at h; cases h) (fun k g h => hall g (getF_mem h))
+    (faultfree_run cfg1 [1] [.add obj3, .publish 5] (by intro a ha; simp at ha; rw [ha]; rfl)),
     by rw [h5]; decide⟩
 example : isAdded (reads (run (init cfg1 [1]) [.add obj3, .publish 5]) 5 [] 9).1 1 = false := by decide
 
@@ -515,7 +526,8 @@ example : ∃ f, WaitsEligible (run (init cfg1 [1]) [.add obj3, .publish 5]) 1 5
   have hall : ∀ g ∈ (run (init cfg1 [1]) [.add obj3, .publish 5]).objs, wantsTick g = false := by decide
   have hq : 1 ∈ (run (init cfg1 [1]) [.add obj3, .publish 5]).queue := by decide
   exact ⟨f, WaitsEligible.mk (And.intro hq (Exists.intro f (And.intro h1 (PView.refl f)))) (Or.inl h2) (fun _ => h3)
-    (fun st h => by rw [h4] at h; cases h) (fun k g h => hall g (getF_mem h)), by rw [h5]; decide⟩
+    (fun st h => by rw [h4] at h; cases h) (fun k g h => hall g (getF_mem h))
+    (faultfree_run cfg1 [1] [.add obj3, .publish 5] (by intro a ha; simp at ha; rw [ha]; rfl)), by rw [h5]; decide⟩
 example : (read (read (run (init cfg1 [1]) [.add obj3, .publish 5]) 5 []).1 5 []).1.log.any (badEv2 1) = true := by decide
 
 end Flute.Props.C12
